@@ -59,4 +59,4 @@ def confirm(rp, resp):
 def signature(c, rp, resp, text):
     import re
 
-    return {"env": rp.get("spec"), "what": re.sub(r"row \d+|\d+", "", text)[:50].strip()}
+    return {"env": rp.get("spec"), "what": re.sub(r"row \d+|\d+", "", text)[:50].strip(), "quotas_differ": _E.quotas_differ(rp)}
